@@ -73,6 +73,8 @@ def rworld (topo : Option (List Nat)) : World M RV where
   unstar _ := throw "TypeError"
   format _ := throw "TypeError"
   concat _ := throw "TypeError"
+  dict _ := throw "TypeError"
+  whileLoop _ _ _ := throw "Unsupported"
   other _ := throw "Unsupported"
   throw cls := throw cls
   rethrow := throw "reraise"
